@@ -11,8 +11,7 @@ def jqDialect : Dialect := { succinctly := false, ifNoElseNull := false, fromjso
 /-- jq 1.7.1 spelling of a number on output -/
 def jqPrint (n : JNum) : Option String :=
   match n.lit, n.repr with
-  | some l, .flt f => if f.isNaN then some "null" else if l.any (fun c => c == 'e' || c == 'E') then none else some (JNum.stripLit l)
-  | some l, .int _ => if l.any (fun c => c == 'e' || c == 'E') then none else some (JNum.stripLit l)
+  | some _, _ => JNum.print n
   | none, .int i => if i.natAbs ≤ 9007199254740992 then some (toString i) else none
   | none, .flt f =>
     if f.isNaN then some "null"
@@ -24,7 +23,7 @@ def render (v : JV JNum) : Option String := v.render jqPrint
 def errText (e : JV JNum) : Option String :=
   match e with
   | .str s => some s
-  | e => (render e).map fun t => t ++ " (not a string)"
+  | e => (render e).map fun t => "(not a string): " ++ t
 
 /-- (status, stdout, error message) of the model run -/
 def modelRun (prog input : String) : Option (Nat × String × Option String) :=
@@ -42,6 +41,29 @@ def modelRun (prog input : String) : Option (Nat × String × Option String) :=
        | some (.halt c _) => some (c.toNat, out, none)
        | some _ => some (5, out, some "break"))
   | _, _, _ => none
+
+/-- one input of a generated run: `none` = no oracle verdict (outside the fragment, or the program
+touches a recorded difference between succinctly and jq 1.7.1: the two dialects of the model differ) -/
+def oracleRun (prog input : String) : Option (List String × Option String) :=
+  match C23.preludeJ, parseProgram prog false, parseProgram prog true, (readJson input : Option (JV JNum)) with
+  | some env, some ej, some es, some v =>
+    (match eval jqDialect C23.fuelDefault ej env v .off, eval {} C23.fuelDefault es env v .off with
+     | some oj, some os =>
+       if C23.runLine oj != C23.runLine os then none else
+       let vals := oj.filterMap fun | .val x _ => some (render x) | _ => none
+       if vals.any (·.isNone) then none else
+       let outs := vals.map (·.getD "")
+       (match terminatorOf oj with
+        | none => some (outs, none)
+        | some (.err e) =>
+          (match e with
+           | .str m => some (outs, some ("jq: error: " ++ m))
+           | e => (render e).map fun t => (outs, some ("jq: error (not a string): " ++ t)))
+        | some (.brk _) => some (outs, some "jq: error: break")
+        | some (.halt _ _) => none
+        | some _ => none)
+     | _, _ => none)
+  | _, _, _, _ => none
 
 def containsSub (s sub : String) : Bool := (s.splitOn sub).length > 1
 
@@ -64,6 +86,21 @@ def exec (a : List String) : String :=
           if toString st == expStatus && out == expOut && okErr then "REPRO"
           else s!"MODEL-MISMATCH status={st} out={hexBytes (out.toUTF8.toList.map fun b => BitVec.ofNat 8 b.toNat)} err={err.getD ""}")
      | _, _, _ => "BAD-HEX")
+  | ["run", p, is] =>
+    (match C23.hexToString p with
+     | some prog =>
+       let inputs := (is.splitOn ",").map C23.hexToString
+       if inputs.any (·.isNone) then "BAD-HEX" else
+       let runs := inputs.map fun i => oracleRun prog (i.getD "")
+       if runs.any (·.isNone) then "OUT-OF-FRAGMENT divergent-or-unmodelled" else
+       let runs := runs.map (·.getD ([], none))
+       let segs := runs.map fun r => ";".intercalate r.1
+       let errs := runs.filterMap (·.2)
+       let lastErr := match runs.getLast? with | some r => r.2.isSome | none => false
+       let st := if errs.isEmpty then "0" else if lastErr then "5" else "?"
+       let errText := String.join (errs.map (· ++ "\n"))
+       s!"S{st}|{"|".intercalate segs}|E:{hexBytes (errText.toUTF8.toList.map fun b => BitVec.ofNat 8 b.toNat)}"
+     | none => "BAD-HEX")
   | _ => "BAD-OP"
 
 end SV.Drv.C24
